@@ -3,7 +3,8 @@ CONSTANTS
   Protos <- AllProtos
   Retries <- R0123
   Outcomes <- AllOutcomes
+  MaxRounds = 2
   Emit = TRUE
-INVARIANTS AttemptsBounded SendsBounded ChallengeFresh OnlyProtocolRequests ErrorClassFaithful AllTimeoutsGiveTimeout OpensBounded Export
+INVARIANTS AttemptsBounded SendsBounded ChallengeFresh RoundEchoed OnlyProtocolRequests ErrorClassFaithful AllTimeoutsGiveTimeout OpensBounded Export
 
 CHECK_DEADLOCK FALSE
